@@ -194,7 +194,7 @@ FLOORS = {'quick': {'nontrivial': 58000,
           'thorough': {'nontrivial': 2800000,     # recording cap is 400000 per shard x 14
                        'monitors': {'M.reread': 14900000, 'M.reread-lf': 1750000, 'M.must-reject': 3500000,
                                     'M.unchanged': 5300000, 'K.setitem-raise': 5500000,
-                                    'M.parse': 660000, 'M.parsed-value': 1470000, 'M.reread-parsed': 1140000},
+                                    'M.parse': 510000, 'M.parsed-value': 1100000, 'M.reread-parsed': 890000},
                        'counters': {'enum-len:7': 10000000, 'enum-len:6': 1000000, 'enum-len:5': 100000,
                                     'accepted-multiline': 1300000, 'copy-checked': 49000, 'route:update': 64000,
                                     'route:ctor': 64000, 'route:setdefault': 22000,
@@ -206,17 +206,17 @@ FLOORS = {'quick': {'nontrivial': 58000,
                                     'lf:cr-mid-line': 290000,
                                     # parse-side class
                                     'penum-len:6': 531441, 'penum-len:5': 295245, 'penum-len:4': 32805,
-                                    'parse:history-case': 100000, 'parse:lone-cr': 420000, 'parse:hot': 338000,
-                                    'parse:hot:list': 196000, 'parse:hot:stream': 142000,
-                                    'parse:crlf-inside-list-element': 137000, 'parse:accepted': 535000,
-                                    'parse:accepted-cr-value': 36000, 'parse:history-reread': 267000,
-                                    'parse:history-reread-multi-op': 196000, 'parse:op-accepted': 507000,
-                                    'parse:op-rejected': 75000, 'parse:api:iter': 498000, 'parse:api:ctor': 166000,
-                                    'parse:form:lines-bare': 104000, 'parse:form:lines-nl': 104000,
-                                    'parse:form:lines-bytes': 57000, 'parse:form:lines-bytes-nl': 57000,
-                                    'parse:form:lines-gen': 57000, 'parse:form:stringio': 57000,
-                                    'parse:form:bytesio': 104000, 'parse:form:textfile': 57000,
-                                    'parse:form:binfile': 57000, 'parse:form:str': 2400, 'parse:form:bytes': 2400}}}
+                                    'parse:history-case': 79000, 'parse:lone-cr': 320000, 'parse:hot': 250000,
+                                    'parse:hot:list': 140000, 'parse:hot:stream': 100000,
+                                    'parse:crlf-inside-list-element': 100000, 'parse:accepted': 410000,
+                                    'parse:accepted-cr-value': 28000, 'parse:history-reread': 200000,
+                                    'parse:history-reread-multi-op': 150000, 'parse:op-accepted': 390000,
+                                    'parse:op-rejected': 59000, 'parse:api:iter': 380000, 'parse:api:ctor': 120000,
+                                    'parse:form:lines-bare': 80000, 'parse:form:lines-nl': 80000,
+                                    'parse:form:lines-bytes': 44000, 'parse:form:lines-bytes-nl': 44000,
+                                    'parse:form:lines-gen': 44000, 'parse:form:stringio': 44000,
+                                    'parse:form:bytesio': 80000, 'parse:form:textfile': 44000,
+                                    'parse:form:binfile': 44000, 'parse:form:str': 1900, 'parse:form:bytes': 2000}}}
 
 WS_FALSE = {'whitespace-separates-paragraphs': False}
 
